@@ -31,6 +31,8 @@ type WorkerPool struct {
 	logger *AbsfsNFS
 	// R29: Mutex to serialize Resize calls
 	resizeMu sync.Mutex
+	// resizing is set (under resizeMu) while Resize stops the pool to re-enqueue queued tasks
+	resizing bool
 	// closeMu prevents Submit from sending on a closed taskQueue.
 	// Submit holds RLock; Stop holds Lock before closing the channel.
 	closeMu sync.RWMutex
@@ -188,6 +190,17 @@ func (p *WorkerPool) Stop() {
 	// Wait for all workers to finish
 	p.wg.Wait()
 
+	// Workers may have exited with tasks still queued. Tell their submitters the
+	// tasks were not executed (a closed result channel) so they can run them directly.
+	// Resize drains the queue itself in order to re-enqueue the tasks.
+	if !p.resizing {
+		for task := range p.taskQueue {
+			if task.ResultChan != nil {
+				close(task.ResultChan)
+			}
+		}
+	}
+
 	p.logger.logger.Printf("Worker pool stopped")
 }
 
@@ -227,7 +240,9 @@ func (p *WorkerPool) Resize(maxWorkers int) {
 	// Stop the pool if it's running
 	// This will close the old queue and wait for all workers to finish
 	if wasRunning {
+		p.resizing = true
 		p.Stop()
+		p.resizing = false
 	}
 
 	// Drain remaining tasks from old queue and notify callers.
@@ -264,17 +279,17 @@ func (p *WorkerPool) Resize(maxWorkers int) {
 			select {
 			case p.taskQueue <- task:
 			default:
-				// Queue full, notify caller of failure
+				// Queue full, tell the submitter the task was not executed
 				if task.ResultChan != nil {
-					task.ResultChan <- nil
+					close(task.ResultChan)
 				}
 			}
 		}
 	} else {
-		// Pool wasn't running, notify callers of dropped tasks
+		// Pool wasn't running, tell submitters their tasks were not executed
 		for _, task := range pendingTasks {
 			if task.ResultChan != nil {
-				task.ResultChan <- nil
+				close(task.ResultChan)
 			}
 		}
 	}
